@@ -42,6 +42,11 @@ BETWEEN = tuple(f"0;255;3;0;{t};x\n" for t in range(0, 34) if t != 2) + tuple(f"
     "0;255;3;0;14;Gateway startup complete.\n", "0;255;3;0;2;2.2.0\n", "0;255;3;0;2;2.1.0\n", "0;255;3;0;2;2.0.0\n", "0;255;0;0;18;2.2.0\n",
     "3;0;1;0;2;0\n", "3;0;2;0;2;\n", "3;0;0;0;3;relay\n", "3;255;0;0;17;2.0\n", "1;0;1;0;2;1\n", "1;0;2;0;2;\n", "1;0;0;0;3;relay\n", "1;255;3;0;0;55\n",
     "1;255;3;0;11;sketch\n", "9;0;1;0;2;1\n", "1;7;1;0;2;1\n", "junk\n", "255;255;3;0;3;\n", "1;255;4;0;0;00\n",
+    # the woken node reboots and presents itself again; another sleeping node does
+    "1;255;0;0;17;2.0\n", "1;255;0;0;18;2.2.0\n", "2;255;0;0;17;2.0\n", "1;255;0;0;17;\n",
+    # what the application does after the failed flush: asks the node for the state it failed to switch, sends other commands,
+    # saves and reloads the registry (node objects are replaced)
+    "@send-req", "@send-req-ack", "@send-internal", "@reload", "@save",
 )
 
 
@@ -194,6 +199,31 @@ def _run_race(case: dict) -> Outcome:
     return Outcome(ok=True, nontrivial=True, classes=classes, extra_evals=count - 1)
 
 
+async def _app_event(name: str, gateway, parked: list, info: dict) -> Outcome | None:
+    """Something the application does between the failed flush and the retry; none of it may cost a parked set command."""
+    if name in ("@send-req", "@send-req-ack"):
+        for n, c, t, _v in parked:
+            status, value = await env.send(gateway, env.mk_message([n, c, 2, 1 if name.endswith("ack") else 0, t, ""]))
+            if status == "leak":
+                return fail(f"leak:{env.exc_sig(value)}", f"send of a value request for ({n},{c},{t}) raised {value!r}")
+    elif name == "@send-internal":
+        for node in (1, 2):
+            await env.send(gateway, env.mk_message([node, 255, 3, 0, 18, ""]))
+    else:
+        import os
+        import tempfile
+
+        from aiomysensors.persistence import Persistence
+
+        if "persistence" not in info:
+            info["tmpdir"] = tempfile.mkdtemp(prefix="vfc08-", dir="/dev/shm" if os.path.isdir("/dev/shm") else None)
+            info["persistence"] = Persistence(gateway.nodes, os.path.join(info["tmpdir"], "registry.json"))
+        await info["persistence"].save()
+        if name == "@reload":
+            await info["persistence"].load()
+    return None
+
+
 def run_case(case: dict) -> Outcome:
     if case.get("kind") == "race":
         return _run_race(case)
@@ -250,6 +280,8 @@ def run_case(case: dict) -> Outcome:
             elif status != "ok":
                 return fail("wake-fails-without-fault", f"{where}: {value!r}")
             for _s, line, was_failed in step_attempts:
+                if line not in lines and line.split(";")[2] != "1":
+                    continue  # a value request / internal command the application sent meanwhile and the library held back (C12's subject)
                 if line not in lines:
                     return fail("spurious-write", f"{where}: attempted {line!r}, never parked")
                 if lines[line] != node:
@@ -261,7 +293,13 @@ def run_case(case: dict) -> Outcome:
             if idx < generated:
                 for line in case.get("between", ()):
                     before_attempts = len(transport.attempts)
-                    status, value = await env.rx(gateway, line)
+                    if line.startswith("@"):
+                        bad_event = await _app_event(line, gateway, parked, info)
+                        if bad_event is not None:
+                            return bad_event
+                        status, value = "ok", None
+                    else:
+                        status, value = await env.rx(gateway, line)
                     if status == "leak":
                         return fail(f"leak:{env.exc_sig(value)}", f"{where}, then {line!r}: {value!r}")
                     for _s, wline, was_failed in transport.attempts[before_attempts:]:
@@ -279,7 +317,13 @@ def run_case(case: dict) -> Outcome:
             return fail("command-lost", f"never written although both nodes woke fault-free afterwards: {lost!r} (faults at attempts {case['faults']}, wakes {case['wakes']})")
         return None
 
-    bad = env.run(go())
+    try:
+        bad = env.run(go())
+    finally:
+        if info.get("tmpdir"):
+            import shutil
+
+            shutil.rmtree(info["tmpdir"], ignore_errors=True)
     classes = (f"version={version}", f"parked={len(parked)}", f"faults-hit={min(info['faults_hit'], 4)}")
     if bad is not None:
         if bad.ok:
